@@ -80,4 +80,13 @@ CHECKS = {
   note="Stack depth is measured (runtime.Callers, sampled), not modelled; deep chains run in their own process and stack "
        "exhaustion there is reported as the violation it is. Concurrency verdicts use only timing-independent facts.",
   technique="TLC model checking of the trampoline; replay of the TLC-exported program space + TLC trace validation on the real lazy package"),
+ "C17": dict(
+  text="StateTSpec!Run is the reference semantics of fp.StateT (result, final state = state at the point of failure, primitive steps "
+       "executed in order, handler invocations with the error and state received). TLC checks the state-monad laws, left-to-right "
+       "threading, failure short-circuit and the Recover* clauses for all 4 860 programs of the space x 3 initial states, exports "
+       "the space, and every exported program plus seeded random programs (FlatMap/Map/Map2/Sequence/Concat/Traverse/FoldM, all 8 "
+       "Recover* variants, depth <= 5) is run with the real statet package; TLC (TraceStateT) accepts a run only if result, state, "
+       "executed steps and handler arguments equal Run's.",
+  note="S = int, A = []int; errors compared by identity; function parameters come from a small table.",
+  technique="TLC checks laws on a reference semantics over a program space; exported + random programs replayed on the real package and validated by TLC"),
 }
